@@ -1059,9 +1059,14 @@ static void setup(jv *cfg)
   jv *ex = j_get(cfg, "extra");
   if (ex) for (int i = 0; i < ex->n; i++) {
     int fd = (int) ex->a[i]->a[0]->i;
+    const char *nm = ex->a[i]->n > 2 ? ex->a[i]->a[2]->s : "e";
+    static int many_fd;   /* descriptors named "m" are all names for ONE open file (dup'ed): hundreds of them, one object */
+    if (i == 0) many_fd = -1;
+    if (!strcmp(nm, "m") && many_fd >= 0) { sk_dup_to(0, many_fd, fd, (int) ex->a[i]->a[1]->i, 0); continue; }
     int o = sk_new_obj(OK_TTY, 0);
-    objname_cfg[o] = ex->a[i]->n > 2 ? keep(ex->a[i]->a[2]->s) : "e";
+    objname_cfg[o] = keep(nm);
     sk_install(0, fd, o, 2, (int) ex->a[i]->a[1]->i, 0);
+    if (!strcmp(nm, "m")) many_fd = fd;
   }
   jv *m = j_get(cfg, "mask");
   if (m) for (int i = 0; i < m->n; i++) K->proc[0].mask |= 1ULL << (m->a[i]->i - 1);
